@@ -16,7 +16,9 @@ import "math"
 // being guessed.
 //
 // Sums of integer-valued terms below 2^52 (counts, byte sizes) are exact in both evaluations
-// and get E = 0, so the exact checks of integer-valued queries stay exact.
+// and get E = 0, and so does an arithmetic operator applied to two exact operands (one correctly
+// rounded IEEE operation has one answer): such points are compared for equality, not within a
+// tolerance, so that "x / 3" computed as "x * (1/3)" shows.
 
 const (
 	ulp      = 1.0 / (1 << 52)
@@ -143,10 +145,13 @@ func binErr(op string, l, el, r, er, res float64) (e float64, unc bool) {
 	switch op {
 	case "+", "-":
 		if exact {
-			return roundErr * math.Abs(res), false
+			return 0, false // one correctly rounded IEEE operation over the same two operands
 		}
 		return el + er + roundErr*math.Abs(res), false
 	case "*":
+		if exact {
+			return 0, false
+		}
 		return math.Abs(l)*er + math.Abs(r)*el + el*er + roundErr*math.Abs(res), false
 	case "/":
 		if math.Abs(r) <= 2*er {
@@ -154,6 +159,9 @@ func binErr(op string, l, el, r, er, res float64) (e float64, unc bool) {
 		}
 		if !finite(res) {
 			return 0, !exact
+		}
+		if exact {
+			return 0, false // the quotient of two given floats is one float, not a neighbour of it
 		}
 		return (el+math.Abs(res)*er)/(math.Abs(r)-er) + roundErr*math.Abs(res), false
 	case "%":
